@@ -82,7 +82,7 @@ def render_onnx_type(tp: onnx.TypeProto) -> str:
 # ------------------------------------------------------------------------------------------------ model rendering
 
 
-def show_graph(g: onnx.GraphProto, typed=True) -> str:
+def show_graph(g: onnx.GraphProto, typed=False) -> str:
     inits = [t.name for t in g.initializer]
     if typed:
         ins = ",".join(f"{i.name}:{render_onnx_type(i.type)}" for i in g.input)
@@ -97,7 +97,7 @@ def show_node(n: onnx.NodeProto) -> str:
     parts = []
     for a in n.attribute:
         if a.type == onnx.AttributeProto.GRAPH:
-            parts.append(a.name + "=" + show_graph(a.g, typed=not getattr(show_node, "raw", False)))
+            parts.append(a.name + "=" + show_graph(a.g))
         else:
             parts.append(a.name)
     return "(" + n.name + " " + n.domain + ":" + n.op_type + " [" + ",".join(n.input) + "] [" + ",".join(n.output) + "] {" + ";".join(parts) + "})"
@@ -108,10 +108,10 @@ def show_imports(imps) -> str:
 
 
 def show_model(m: onnx.ModelProto) -> str:
-    s = show_imports(m.opset_import) + " " + show_graph(m.graph)
+    s = show_imports(m.opset_import) + " " + show_graph(m.graph, typed=True)
     for f in m.functions:
-        s += " FUNC " + f.domain + ":" + f.name + " " + show_imports(f.opset_import) + " " + "<[" + ",".join(f.input) + "] [] " + " ".join(
-            show_node(n) for n in f.node) + " [" + ",".join(f.output) + "]>"
+        s += (" FUNC " + f.domain + ":" + f.name + " " + show_imports(f.opset_import) + " <[" + ",".join(f.input) + "] [" +
+              ",".join(f.attribute) + "] " + " ".join(show_node(n) for n in f.node) + " [" + ",".join(f.output) + "]>")
     return s
 
 
@@ -173,7 +173,8 @@ class Reflect:
             kind = "KInline " + self.ograph(op.model.graph) + " " + coq_list(
                 [f"({coq_str(imp.domain)}, {imp.version})" for imp in op.model.opset_import])
         elif isinstance(op, Function):
-            kind = f"KFunc {self.graph(op.func_graph)}"
+            kind = (f"KFunc {self.graph(op.func_graph)} {coq_list([coq_str(x) for x in op.func_inputs.get_fields().keys()])} "
+                    f"{coq_list([coq_str(x) for x in op.func_outputs.get_fields().keys()])} {coq_list([coq_str(x) for x in op.func_attrs.keys()])}")
             for k, a in op.attrs.get_fields().items():
                 if a is not None:
                     attrs.append((a._name, None))
@@ -192,6 +193,8 @@ class Reflect:
                 vtys.append(None)
             else:
                 vtys.append((render_spox_type(v.type), spox_type_concrete(v.type)))
+        if kind.startswith("KInline") or kind.startswith("KFunc"):
+            kind = "(" + kind + ")"
         self.nodes[i] = dict(kind=kind, ident=op.op_type.identifier, domain=op.op_type.domain, version=op.op_type.version,
                              ins=ins, outs=list(outs.keys()), attrs=attrs, min_in=op.min_input, min_out=op.min_output,
                              vtys=vtys, vnames=[v._name for v in outs.values()])
@@ -217,15 +220,17 @@ class Reflect:
             subs = []
             for a in n.attribute:
                 if a.type == onnx.AttributeProto.GRAPH:
-                    subs.append(f"({coq_str(a.name)}, {self.ograph(a.g)})")
+                    subs.append(f"({coq_str(a.name)}, Some {self.ograph(a.g)})")
                 elif a.type == onnx.AttributeProto.GRAPHS:
                     raise Unsupported("GRAPHS attribute in inlined model")
+                else:
+                    subs.append(f"({coq_str(a.name)}, None)")
             return (f"ONode {coq_str(n.name)} {coq_str(n.op_type)} {coq_str(n.domain)} {L([coq_str(x) for x in n.input])} "
                     f"{L([coq_str(x) for x in n.output])} {L(subs)}")
 
-        if len(g.initializer) or len(g.sparse_initializer):
-            raise Unsupported("inlined graph with initializers after normalisation")
-        return (f"(OGraph {L([coq_str(i.name) for i in g.input])} {L([node(n) for n in g.node])} "
+        if len(g.sparse_initializer):
+            raise Unsupported("inlined (sub)graph with sparse initializers after normalisation")
+        return (f"(OGraph {L([coq_str(i.name) for i in g.input])} {L([coq_str(i.name) for i in g.initializer])} {L([node(n) for n in g.node])} "
                 f"{L([coq_str(o.name) for o in g.output])} {L([coq_str(v.name) for v in g.value_info])})")
 
     # -- Gallina printing
@@ -263,10 +268,10 @@ class Reflect:
 
 
 COQ_HEADER = ("From Coq Require Import List String NArith Arith Bool.\n"
-              "From Spox Require Import Base IR Build Show.\nImport ListNotations.\nOpen Scope string_scope.\n")
+              "From Spox Require Import Base IR Build Show Validate.\nImport ListNotations.\nOpen Scope string_scope.\n")
 
 
-def model_outcomes(run, name, cases, fn="build_public"):
+def model_outcomes(run, name, cases, fn="build_checked"):
     """cases: list of (coq_prog, coq_request). Returns the model's rendering for each (evaluated by vm_compute)."""
     from harness.common import parse_coq_string
 
@@ -601,3 +606,222 @@ def full_check(m: onnx.ModelProto):
     except Exception as e:  # noqa: BLE001
         problems.append("onnxruntime load: " + str(e)[:300])
     return problems
+
+
+# ------------------------------------------------------------------------------------------------ shared correspondence pass
+
+
+class Case:
+    __slots__ = ("ins", "outs", "drop", "meta", "refl", "impl", "model_proto", "exc", "model", "coq")
+
+    def __init__(self, ins, outs, drop=False, meta=None):
+        self.ins, self.outs, self.drop, self.meta = ins, outs, drop, meta or {}
+        self.refl = self.impl = self.model_proto = self.exc = self.model = self.coq = None
+
+
+def run_impl(case: Case):
+    """Reflect BEFORE the build (the reflection is what build sees), then run the real build."""
+    try:
+        case.refl = Reflect(case.ins, case.outs, case.drop)
+        case.coq = (case.refl.coq_prog(), case.refl.coq_request())
+    except Unsupported as e:
+        case.refl = None
+        case.coq = None
+        case.meta["unsupported"] = str(e)
+    case.impl, case.model_proto, case.exc = outcome(lambda: build(case.ins, case.outs, drop_unused_inputs=case.drop))
+    return case
+
+
+def correspondence(run, name, cases):
+    """Runs implementation and model on all cases; returns indices of disagreement."""
+    for c in cases:
+        if c.impl is None:
+            run_impl(c)
+    live = [c for c in cases if c.coq is not None]
+    res = model_outcomes(run, name, [c.coq for c in live])
+    for c, r in zip(live, res):
+        c.model = r
+    def same(c):
+        if c.impl == c.model:
+            return True
+        # adversarial user names: only "raises" is compared (which exception wins depends on generated-name collisions
+        # with arguments that were not listed, whose enumeration order comes from a set)
+        return bool(c.meta.get("errors_as_class")) and c.impl.startswith("ERR ") and c.model.startswith("ERR ") and \
+            "fuel" not in c.model and "model-validator" not in c.model
+
+    return [i for i, c in enumerate(cases) if c.coq is not None and not same(c)]
+
+
+def harvest_names(m: onnx.ModelProto):
+    """All value and node names of a built model (for adversarial user names)."""
+    vals, nodes = [], []
+
+    def walk(g):
+        for x in list(g.input) + list(g.initializer) + list(g.output):
+            vals.append(x.name)
+        for n in g.node:
+            if n.name:
+                nodes.append(n.name)
+            vals.extend(o for o in n.output if o)
+            for a in n.attribute:
+                if a.type == onnx.AttributeProto.GRAPH:
+                    walk(a.g)
+
+    walk(m.graph)
+    return sorted(set(vals)), sorted(set(nodes))
+
+
+def describe(case: Case):
+    """Human-readable replay of a case: the reflected program and the request."""
+    return {"request_inputs": list(case.ins.keys()), "request_outputs": list(case.outs.keys()), "drop_unused_inputs": case.drop,
+            "meta": case.meta, "program": None if case.refl is None else [
+                {k: (v if k != "ins" else [None if x is None else list(x) for x in v]) for k, v in nd.items() if k in ("kind", "ident", "ins", "outs", "attrs", "vnames")}
+                for nd in case.refl.nodes],
+            "graphs": None if case.refl is None else [[None if a is None else [list(x) for x in a], [(k, list(v)) for k, v in r]] for a, r in case.refl.graphs[1:]],
+            "impl": case.impl, "model": case.model}
+
+
+# ------------------------------------------------------------------------------------------------ extended generator
+
+
+def make_custom_op():
+    """A user-defined operator class (own domain/version, one attribute, type-inference hook)."""
+    from dataclasses import dataclass
+
+    from spox._attributes import AttrFloat32
+    from spox._fields import BaseAttributes, BaseInputs, BaseOutputs
+    from spox._node import Node, OpType
+
+    class Scale(Node):
+        op_type = OpType("Scale", "verif.custom", 3)
+
+        @dataclass
+        class Attributes(BaseAttributes):
+            factor: AttrFloat32
+
+        @dataclass
+        class Inputs(BaseInputs):
+            X: Var
+
+        @dataclass
+        class Outputs(BaseOutputs):
+            Y: Var
+
+        attrs: Attributes
+        inputs: Inputs
+        outputs: Outputs
+
+        def infer_output_types(self):
+            return {"Y": self.inputs.X.type} if self.inputs.X.type is not None else {}
+
+    def scale(x, factor=2.0):
+        return Scale(Scale.Attributes(AttrFloat32(factor, "factor")), Scale.Inputs(x)).outputs.Y
+
+    return scale
+
+
+class GenX(Gen):
+    """Gen + inlined models (built by spox itself from small recipes, with internal names resembling generated ones),
+    functions (to_function; nested; repeated) and a custom operator."""
+
+    NAME_SETS = [("x", "y"), ("Relu_0_Y", "Add_0_C"), ("a", "o"), ("Inline_0__x", "Inline_0__y"), ("Introduce_0_outputs_", "Argument_0_arg")]
+
+    def __init__(self, rng, features=("inline", "func", "custom"), **kw):
+        super().__init__(rng, **kw)
+        self.features = set(features)
+        self.models, self.funcs = [], []
+        self.custom = make_custom_op()
+        self.nfun = 0
+
+    def inner_model(self):
+        rng, op = self.rng, self.op
+        n = rng.randint(1, 2)
+        args = [argument(Tensor(F32, (2,))) for _ in range(n)]
+        pool = list(args)
+        for _ in range(rng.randint(1, 4)):
+            a, b = rng.choice(pool), rng.choice(pool)
+            k = rng.random()
+            pool.append(op.add(a, b) if k < 0.35 else op.relu(a) if k < 0.55 else op.mul(a, initializer(np.array([1, 2], F32)))
+                        if k < 0.75 else op.const(np.array([3, 4], F32)) if k < 0.85 else
+                        op.if_(op.less(op.reduce_sum(a, keepdims=0), op.const(np.array(0, F32))),
+                               then_branch=lambda: [op.add(a, b)], else_branch=lambda: [op.mul(a, b)])[0])
+        outs = rng.sample(pool[n:], k=min(len(pool) - n, rng.randint(1, 2)))
+        if rng.random() < 0.15:
+            outs = outs + [args[0]]  # pass-through output
+        names = rng.choice(self.NAME_SETS)
+        m = build({f"{names[0]}{i}": a for i, a in enumerate(args)}, {f"{names[1]}{i}": o for i, o in enumerate(outs)})
+        return m, n
+
+    def make_function(self, depth=0):
+        rng, op = self.rng, self.op
+        kind = rng.randrange(3)
+        name = f"F{self.nfun}"
+        self.nfun += 1
+        inner = rng.choice(self.funcs) if (self.funcs and rng.random() < 0.4) else None
+
+        def body(x, y):
+            t = op.add(x, y) if kind == 0 else op.mul(op.relu(x), y) if kind == 1 else op.sub(x, op.const(np.array([1, 1], F32)))
+            if inner is not None:
+                t = inner(t, y)[0]
+            return [t]
+
+        from spox._function import to_function
+
+        f = to_function(name, "verif.fun")(body)
+        return lambda a, b: list(f(a, b))
+
+    def program(self):
+        rng = self.rng
+        self.models = [self.inner_model() for _ in range(rng.randint(1, 2))] if "inline" in self.features else []
+        self.funcs = []
+        if "func" in self.features:
+            for _ in range(rng.randint(1, 3)):
+                self.funcs.append(self.make_function())
+        return super().program()
+
+    def _expr(self, pool, depth):
+        rng = self.rng
+        k = rng.random()
+        if k < 0.14 and self.models:
+            self.count("Inline")
+            m, n = rng.choice(self.models)
+            r = inline(m)(*[self._same2(rng.choice(pool)) for _ in range(n)])
+            return rng.choice(list(r.values()))
+        if k < 0.24 and self.funcs:
+            self.count("Function")
+            f = rng.choice(self.funcs)
+            return f(self._same2(rng.choice(pool)), self._same2(rng.choice(pool)))[0]
+        if k < 0.29 and "custom" in self.features:
+            self.count("Custom")
+            return self.custom(rng.choice(pool), float(rng.randint(1, 3)))
+        return super()._expr(pool, depth)
+
+
+def dependency_arguments(outs):
+    """Independent walker: the argument Vars on which the given Vars depend, through inputs and through the results of
+    subgraphs at any depth (identity-based)."""
+    seen, args, local = set(), [], set()
+
+    def visit(v):
+        if id(v) in seen:
+            return
+        seen.add(id(v))
+        opn = v._op
+        if isinstance(opn, Argument):
+            args.append(v)
+            return
+        for x in opn.inputs:
+            if x is not None:
+                visit(x)
+        for a in opn.attrs.get_fields().values():
+            if isinstance(a, AttrGraph):
+                for ba in a.value.requested_arguments or ():
+                    local.add(id(ba))
+                for r in a.value.requested_results.values():
+                    visit(r)
+        if isinstance(opn, Function):
+            pass  # function bodies are closed over their own parameters
+
+    for v in outs:
+        visit(v)
+    return [a for a in args if id(a) not in local]
